@@ -19,6 +19,36 @@ from pams.utils.json_extends import json_extends
 from pams.utils.json_random import JsonRandom
 
 
+def runner_resolve(name, regs, builtin_names):
+    """register `regs` with a fresh runner through its public `class_register` and resolve `name` against the
+    runner's list, as `_generate_markets` / `_generate_agents` / `_generate_sessions` do; returns (class or
+    None if refused, number of candidates)"""
+    with warnings.catch_warnings():
+        warnings.simplefilter("ignore")
+        runner = SequentialRunner(settings={"simulation": {"markets": [], "agents": [], "sessions": []}},
+                                  prng=random.Random(0))
+        for c in regs:
+            runner.class_register(c)
+        try:
+            got = find_class(name=name, optional_class_list=runner.registered_classes)
+        except AttributeError:
+            got = None
+    mine = [r for r in regs if r.__name__ == name]
+    cands = (1 if name in builtin_names else 0) + len({id(r) for r in mine})     # distinct classes of that name
+    return got, cands, len(mine) != len({id(r) for r in mine})
+
+
+def class_resolution_ok(name, regs, builtin_names, got, cands, same_twice):
+    """exactly one distinct candidate: resolved to it (registering the very same class twice may also be refused:
+    the unchanged code counts it twice); none or several distinct candidates: refused"""
+    if cands != 1:
+        return got is None
+    if got is None:
+        return same_twice
+    return any(x is got for x in regs) or (name in builtin_names and getattr(got, "__module__", "").startswith("pams")
+                                           and not any(r.__name__ == name for r in regs))
+
+
 def viol(sig, requires, observed, inp):
     return {"signature": sig, "requires": requires, "observed": observed, "monitor": "C18", "input": inp}
 
@@ -408,6 +438,19 @@ def run_C18(ctx, model_available=True):
                         "note": "the same name was resolved earlier in this process with another set of registered classes"}))
             exp = "?"
         expects.append(("findclass", exp, {"name": name, "registered": [x.__name__ for x in regs]}))
+        # the same resolution the way a simulation does it: the classes registered with a runner
+        # (`class_register`, one call per class, a class possibly twice) and the runner's own list
+        twice = rng.random() < 0.15 and regs
+        regs2 = regs + ([regs[0]] if twice else [])
+        got2, cands2, same2 = runner_resolve(name, regs2, builtin_names)
+        checks += 1
+        if not class_resolution_ok(name, regs2, builtin_names, got2, cands2, same2):
+            add_v(viol("C18/runner-class-resolution-not-unique",
+                       "a class name resolves to exactly one class among the built-in classes and the classes registered with the runner, else it is an error",
+                       {"name": name, "registered": [x.__name__ for x in regs2], "candidates": cands2,
+                        "resolved_to": repr(got2)},
+                       {"kind": "runner-findclass", "name": name, "registered": [x.__name__ for x in regs2],
+                        "first_twice": bool(twice)}))
 
     # (f) legacy keys of Session.setup
     for i in range(120 * scale):
@@ -522,6 +565,15 @@ def replay_C18(obj):
             if (got is None) != (cands != 1) or not ok_cls:
                 out.append({"signature": obj["signature"], "observed": {"name": name, "registered": regnames, "got": repr(got)}})
                 break
+    elif inp["kind"] == "runner-findclass":
+        builtin_names = ["FCNAgent", "Market", "IndexMarket", "TradingHaltRule", "MarketMakerAgent", "Logger", "Session"]
+        names = list(inp["registered"])
+        regs = [type(nm, (), {"tag": j}) for j, nm in enumerate(names[:-1] if inp.get("first_twice") else names)]
+        if inp.get("first_twice") and regs:
+            regs = regs + [regs[0]]
+        got, cands, same = runner_resolve(inp["name"], regs, builtin_names)
+        if not class_resolution_ok(inp["name"], regs, builtin_names, got, cands, same):
+            out.append({"signature": obj["signature"], "observed": {"name": inp["name"], "registered": names, "got": repr(got)}})
     elif inp["kind"] == "session":
         base = {"sessionName": 0, "iterationSteps": 3, "withOrderPlacement": True, "withOrderExecution": True, "withPrint": False}
         res = []
